@@ -3,13 +3,33 @@
 static inline bool vx_sort_pred(const struct rule_info* p1, const struct rule_info* p2) { struct rule_info ri1 = *p1, ri2 = *p2; return VX_SORT_PRED_BODY; }
 #define VX_RULE_OK(r) ((r).l_idx < nterm_count && (r).r_idx < rule_count && (r).r_elements <= max_rule_element_count)
 #define VX_WF_GI (VX_PARAMS_OK && __CPROVER_forall { size_t vq_gi; (vq_gi < PH_RULES) ==> (vq_gi < rule_count ==> VX_RULE_OK(gi.rule_infos[vq_gi])) })
+size32_t g_it_idx; size16_t g_it_ri, g_it_after, g_it_t;
 void vx_havoc(void)
 {
   size_t a, b, c, d, e, f, g, h; P_TERMS = a; P_NTERMS = b; P_RULES = c; P_MAXLEN = d; P_EMPTY = e; P_SUM_N1 = f; P_STATE_CAP = g; P_SIT_CAP = h;
   struct grammar_info tgi; gi = tgi;
-  __CPROVER_havoc_object(parse_table); __CPROVER_havoc_object(simple_states); __CPROVER_havoc_object(states); __CPROVER_havoc_object(closures);
+  __CPROVER_havoc_object(parse_table); __CPROVER_havoc_object(simple_states); __CPROVER_havoc_object(states__all_situations_vec); __CPROVER_havoc_object(states__kernel); __CPROVER_havoc_object(states__situations_by_symbol); __CPROVER_havoc_object(closures);
   __CPROVER_havoc_object(right_side_slice_first); __CPROVER_havoc_object(nterm_first);
   struct cbitset b1, b2, b3, b4, b5, b6, b7; closures_analyzed = b1; right_side_slice_empty_analyzed = b2; right_side_slice_empty = b3; right_side_slice_first_analyzed = b4;
   nterm_empty = b5; nterm_empty_analyzed = b6; nterm_first_analyzed = b7;
+  size32_t ii; size16_t i1, i2, i3; g_it_idx = ii; g_it_ri = i1; g_it_after = i2; g_it_t = i3;
   size16_t sc; state_count = sc; size_t k, j, y; g_k = k; g_j = j; g_y = y; vx_thrown = 0;
 }
+/* ---- item sets ---- */
+#define VX_SV_WF(v) ((v).N == max_sit_count_per_state_cap && (v).N >= 1 && (v).N <= VX_CAP && (v).current_size <= (v).N)
+#define VX_BS_WF(b, n) ((b).N == (n) && (b).N >= 1 && (b).N <= CB_WORDS * 64)
+#define VX_BIT(b, i) (((b).data[(i) / 64] >> ((i) % 64)) & 1)
+#define VX_SAS_OK (VX_PARAMS_OK && situation_address_space_size <= PH_SAS && situation_size * rule_count <= PH_RSS && max_sit_count_per_state_cap >= 1 && max_sit_count_per_state_cap <= VX_CAP)
+/* symbols of the right sides are declared symbols */
+#define VX_SYMS_OK (__CPROVER_forall { size_t vq_sym; (vq_sym < PH_RULES * PH_MAXLEN) ==> (gi.right_sides[vq_sym / PH_MAXLEN][vq_sym % PH_MAXLEN].term ? gi.right_sides[vq_sym / PH_MAXLEN][vq_sym % PH_MAXLEN].idx < term_count : gi.right_sides[vq_sym / PH_MAXLEN][vq_sym % PH_MAXLEN].idx < nterm_count) })
+/* the bucket an item belongs to: the symbol after the dot, or the look-ahead term when the item is complete (specification's own expression) */
+/* ghost decode of one item index (no div/mod in the callers' proofs): g_it_idx encodes (g_it_ri, g_it_after, g_it_t);
+   make_situation_info is proved to return exactly this triple for g_it_idx (uniqueness of the mixed-radix code is discharged there) */
+#define VX_GHOST_ITEM_OK (g_it_ri < rule_count && g_it_after < situation_size && g_it_t < term_count && \
+   (size_t)g_it_ri * situation_size * term_count + (size_t)g_it_after * term_count + g_it_t == g_it_idx && g_it_idx < situation_address_space_size)
+#define VX_ITEM_RI (gi.rule_infos[g_it_ri])
+#define VX_ITEM_COMPLETE (g_it_after >= VX_ITEM_RI.r_elements)
+#define VX_ITEM_SYM (gi.right_sides[VX_ITEM_RI.r_idx][g_it_after])
+#define VX_ITEM_BUCKET (VX_ITEM_COMPLETE ? nterm_count + g_it_t : (VX_ITEM_SYM.term ? nterm_count + VX_ITEM_SYM.idx : VX_ITEM_SYM.idx))
+#define VX_STATE_WF(s) (VX_SV_WF(states__all_situations_vec[s]) && VX_BS_WF(states__kernel[s], situation_address_space_size) && VX_BS_WF(simple_states[s], situation_address_space_size) && \
+   __CPROVER_forall { size_t vq_swf; (vq_swf < PH_SYMS) ==> VX_SV_WF(states__situations_by_symbol[s][vq_swf]) })
